@@ -21,6 +21,8 @@ coordinate labels and bool n_modes are neither faults nor controls.
 
 from __future__ import annotations
 
+import contextlib
+import io
 import warnings
 
 import numpy as np
@@ -456,6 +458,8 @@ class Call:
         self.rot_ctor = dict(n_modes=K, power=1, max_iter=200) if self.is_rot else None
         ycont = case.get("ycont", "da")
         self.ycont = ycont
+        if conf == "std_coslat" and self.kind == "cross" and ycont == "list":
+            self.ctor["use_coslat"] = [True, False]  # the second item of the Y list has no latitude dimension
         self.fit = dict(X=build_field("X", cont, N_FIT, seed), dim="time", weights=None)
         if self.kind == "cross":
             self.fit["Y"] = build_field("Y", ycont, N_FIT, seed)
@@ -822,7 +826,7 @@ def describe(res, depth=0):
 
 def _observe(call):
     """Runs the scenario; returns ('returned', description tuple) or ('raised', exception)."""
-    with warnings.catch_warnings():
+    with warnings.catch_warnings(), contextlib.redirect_stdout(io.StringIO()):  # multi.CCA prints its PCA warnings
         warnings.simplefilter("ignore")
         try:
             res = call.run()
